@@ -1,7 +1,8 @@
 """C02 -- converged convex fits reach the reference optimum.
 
 Within reach of this family (DESIGN 4.2): for the convex families, `certificate <= tol` implies an objective gap of at most
-tol * (||w - w*||_1 + |b - b*|) (sub-gradient inequality + Hoelder: trusted lemma), so "reaches the reference optimum" is a
+tol * (||w - w*||_1 + |b - b*|) (sub-gradient inequality + Hoelder: lemma `certificate_bounds_gap`, machine-checked by the
+Lean 4 kernel on every run from lean/CertGap.lean; block form `cert_gap_blocks` for group / multitask certificates), so "reaches the reference optimum" is a
 COROLLARY of C01 (certificate valid) and C06/C08/C11 (the certificate is about the documented objective).  What is checked here:
 
   (i)   the value functions the CODE computes are convex (the lemma needs it): every convex penalty's real value() satisfies the
@@ -26,7 +27,9 @@ from pv.core import add_task, describe
 
 describe('C02', level='proof', floor=10,
          explanation='lemma over C01/C06/C08/C11 + convexity obligations + datafit-side prox contracts + FISTA structure',
-         assumptions=['sub-gradient inequality + Hoelder bound (certificate => objective gap) is a trusted mathematical lemma',
+         assumptions=['certificate => objective gap (sub-gradient inequality + Hoelder bound) is checked by the Lean 4 kernel (lean/CertGap.lean); '
+                      'that the hypotheses of the lemma describe the code is what C01 (certificate), C06 (gradient) and C08 (sub-differential) establish; '
+                      'first-order convexity inequality of the datafits: from raw_hessian >= 0 (2 samples, bounded)',
                       'convergence of the iterations and agreement with external reference implementations are not decided'])
 
 REPO = os.environ.get('SKGLM_REPO', '/repo')
@@ -165,3 +168,39 @@ def solver_site_only_task(T, name):
 
 add_task('C02', 'solvers:AndersonCD._solve[cold]/extrapolation-sites', solver_site_only_task, name='AndersonCD')
 add_task('C02', 'solvers:GroupBCD._solve[cold]/extrapolation-sites', solver_site_only_task, name='GroupBCD')
+
+
+def lean_lemma_task(T):
+    """the gap lemma: `lean lean/CertGap.lean` must be accepted, every theorem present, no `sorry` / extra axiom"""
+    import re
+    import shutil
+    import subprocess
+    import time
+    here = os.path.dirname(os.path.dirname(os.path.abspath(__file__)))
+    src = os.path.join(here, 'lean', 'CertGap.lean')
+    text = open(src).read()
+    lean = shutil.which('lean')
+    if lean is None:
+        T.record('lean-available', 'unknown', note='lean not on PATH')
+        return
+    t0 = time.time()
+    r = subprocess.run([lean, src], capture_output=True, text=True, timeout=3000, cwd=os.path.dirname(src))
+    secs = time.time() - t0
+    out = r.stdout + r.stderr
+    allowed = {'propext', 'Classical.choice', 'Quot.sound'}
+    for thm in ('cert_gap', 'subgrad_sum', 'certificate_bounds_gap', 'cert_gap_blocks'):
+        m = re.search(r"'%s' depends on axioms: \[([^\]]*)\]" % re.escape(thm), out.replace('\n', ' '))
+        m0 = re.search(r"'%s' does not depend on any axioms" % re.escape(thm), out)
+        stated = re.search(r'^theorem %s\b' % re.escape(thm), text, re.M) is not None
+        if r.returncode != 0 or 'error' in out or not stated or (m is None and m0 is None):
+            T.record(f'lemma:{thm}', 'unknown' if r.returncode != 0 and 'error' not in out else 'failed', 'U', secs, 'lean4',
+                     note=('lean rejected the file: ' + out[:400]) if stated else 'theorem statement missing')
+            continue
+        axs = set(a.strip() for a in m.group(1).split(',')) if m else set()
+        if 'sorryAx' in axs or not axs <= allowed:
+            T.record(f'lemma:{thm}', 'failed', 'U', secs, 'lean4', note=f'depends on axioms {sorted(axs)}')
+        else:
+            T.record(f'lemma:{thm}', 'proved', 'U', secs, 'lean4', note=f'kernel-checked; axioms: {sorted(axs)}')
+
+
+add_task('C02', 'lemma:certificate=>objective-gap[lean4]', lean_lemma_task)
